@@ -299,7 +299,7 @@ func TestCompleteness(t *testing.T) {
 		curves = append([]string{"bn254", "bn254", "bls12-381", "bls12-377"}, all...)
 	}
 	g := genCase(curves)
-	rec.Check(t, "complete", ev.N(450, 20000), func(rt *rapid.T) {
+	rec.Check(t, "complete", ev.N(1000, 20000), func(rt *rapid.T) {
 		c := g.Draw(rt, "case")
 		rec.Begin("complete", c)
 		rec.Report(rt, "complete", c, run(c))
